@@ -61,3 +61,36 @@ Theorem C02_entry_cascade_in_region_order : forall cf mc children fuel ev n r rn
   start_regions cf mc children fuel ev n r rn g = iterM (entry_step cf mc children fuel ev) (seqn r n) rn g.
 Proof. exact start_regions_seq. Qed.
 Print Assumptions C02_entry_cascade_in_region_order.
+
+(* ---- leaving a machine, any nesting depth ---- *)
+From Msm Require Import Lemmas_Quiesce Lemmas_Shape Lemmas_Cascade.
+
+(* exit_spec / mexit_spec (Lemmas_Cascade.v) say what leaving a machine means: the active state of every region in
+   region order; for a submachine state first its own active substates (recursively, so innermost first), then the
+   submachine's exit behaviour, then its bookkeeping (history memory; back: deferred events unless history keeps them);
+   backmp11 does not traverse a machine that was never entered.  With behaviours that only observe, the engines run
+   exactly that, for every definition, depth, number of regions and history policy: same invocations in the same order
+   with the same arguments, same resulting tree. *)
+Theorem C02_exit_cascade_any_depth_back : forall cf parents, c_be cf <> Mp11 ->
+  forall mc contained fuel ev rn g,
+  wk mc rn -> g_plan g = [] -> g_up g = [] ->
+  co_exit_pre (build cf parents contained mc) fuel ev rn g =
+    (Some tt, snd (exit_spec mc ev rn), bump g (fst (exit_spec mc ev rn))).
+Proof. exact back_exit_cascade. Qed.
+Print Assumptions C02_exit_cascade_any_depth_back.
+
+Theorem C02_exit_cascade_any_depth_mp11 : forall cf parents, c_be cf = Mp11 ->
+  forall mc contained fuel ev rn g,
+  wk mc rn -> g_plan g = [] -> g_up g = [] ->
+  co_exit_pre (build cf parents contained mc) fuel ev rn g =
+    (Some tt, snd (mexit_spec mc ev rn), bump g (fst (mexit_spec mc ev rn))).
+Proof. exact mp11_exit_cascade. Qed.
+Print Assumptions C02_exit_cascade_any_depth_mp11.
+
+(* reading the specification: a submachine state's substates are older in the trace than its own exit behaviour *)
+Theorem C02_exit_state_inner_first : forall (subs:list (option exit_fn)) ev s items rn (f:exit_fn) kn inner kn1,
+  nth s subs None = Some f -> nth s (kids rn) None = Some kn -> f ev kn = (inner, kn1) ->
+  exit_state subs ev s (items, rn) =
+    (Cb KMExit [s] 0 ev false (act rn) :: map (push_path s) inner ++ items, set_kids rn (upd (kids rn) s (Some kn1))).
+Proof. exact exit_state_sub. Qed.
+Print Assumptions C02_exit_state_inner_first.
